@@ -268,6 +268,19 @@ def op_compress(c):
     return c
 
 
+def op_prefactor_phase_twice(x):
+    """what Mps.evolve_exact / MpDm.evolve_exact do with a Hamiltonian offset, twice from the same source: an in-place phase on the prefactor of an object
+    derived by metacopy / copy must not reach the source (the prefactor is a scalar, not a shared mutable array)"""
+    seen = []
+    for derive in (lambda o: o.metacopy(), lambda o: o.copy()):
+        for _ in range(2):
+            c = derive(x)
+            c.coeff *= np.exp(-0.037j)
+            seen.append(complex(np.asarray(c.coeff).reshape(-1)[0]))
+    seen.append(complex(np.asarray(x.coeff).reshape(-1)[0]))
+    return np.array(seen)
+
+
 def state_ops(H):
     from renormalizer.utils import EvolveConfig, EvolveMethod
 
@@ -282,7 +295,8 @@ def state_ops(H):
            ("canonicalise", lambda x: x.copy().canonicalise()),
            ("compress", lambda x: op_compress(x.copy())),
            ("norm", lambda x: x.conj().dot(x)),
-           ("scale", lambda x: x.scale(0.5 - 1.0j))]
+           ("scale", lambda x: x.scale(0.5 - 1.0j)),
+           ("prefactor_phase_on_derived_objects_twice", op_prefactor_phase_twice)]
     if H is not None:
         ops += [("expectation", lambda x: x.expectation(H)), ("evolve_tdvp_ps", evolve)]
     return ops
@@ -322,7 +336,10 @@ def chain_roundtrip(led, x, model, fname, key, rep, ops, nontriv, fn="Mps.load",
     if hasattr(x, "coeff"):
         led.check(cbits(getattr(l, "coeff", None), x.coeff), f"post:{fn}:coeff", fn, f"coeff {getattr(l, 'coeff', None)!r} after load, was {x.coeff!r}",
                   key, fields, rep, nontriv)
+    l_before = l.copy()
     later_ops(led, f"post:{fn}:later_op_identical", fn, ops, x, l, key, fields, rep, nontriv, scale)
+    d = chain_diff(l_before, l)
+    led.check(not d, f"frame:{fn}:reloaded_object_unchanged_by_later_ops", fn, f"operations that leave the original alone changed the reloaded object in {d[:4]}", key, fields, rep, nontriv)
     return l
 
 
@@ -586,7 +603,8 @@ def w_tree(case, led):
         return c.compress()
 
     ops = [("copy", lambda x: x.copy()), ("canonicalise", lambda x: x.copy().canonicalise()), ("compress", compress),
-           ("todense", lambda x: x.todense()), ("scale", lambda x: x.scale(0.5 - 1.0j)), ("add", lambda x: x.add(x))]
+           ("todense", lambda x: x.todense()), ("scale", lambda x: x.scale(0.5 - 1.0j)), ("add", lambda x: x.add(x)),
+           ("prefactor_phase_on_derived_objects_twice", op_prefactor_phase_twice)]
     if ttno is not None:
         ops += [("expectation", lambda x: x.expectation(ttno)), ("apply", lambda x: ttno.apply(x)), ("evolve_tdvp_ps", evolve)]
     try:
@@ -650,7 +668,29 @@ def w_tree(case, led):
                 led.check("qntot" not in d, f"post:{fn}:qntot", fn, f"qntot {l.qntot} after load, was {x.qntot}", key, fields, rep, nontriv)
                 led.check("coeff" not in d, f"post:{fn}:coeff", fn, f"coeff {l.coeff!r} after load, was {x.coeff!r}", key, fields, rep, nontriv)
                 sc = (1.0 + sum(abs(t.factor) for t in terms)) * (1.0 + float(np.linalg.norm(tree_dense(x))) ** 2)
+                l_before = l.copy()
                 later_ops(led, f"post:{fn}:later_op_identical", fn, ops, x, l, key, fields, rep, nontriv, sc)
+                d = tree_diff(l_before, l)
+                led.check(not d, f"frame:{fn}:reloaded_object_unchanged_by_later_ops", fn, f"operations that leave the original alone changed the reloaded tree in {d[:4]}",
+                          key, fields, rep, nontriv)
+                # ---- extra attributes travel with the state (dump/load with other_attrs) and never replace the prefactor
+                for extra in (["time"], ["time", "label"], []):
+                    x.time, x.label = 0.25 * cnt, np.arange(3) + cnt
+                    f2 = os.path.join(tmp, f"t{cnt}_x{len(extra)}.npz")
+                    k2 = key + ("other_attrs", len(extra))
+                    try:
+                        x.dump(f2, other_attrs=list(extra))
+                        l2 = TTNS.load(bt, f2, other_attrs=list(extra))
+                    except Exception as e:
+                        led.check(False, f"post:{fn}:loads_what_dump_wrote", fn, f"dump/load with other_attrs={extra} raised {type(e).__name__}: {e}", k2,
+                                  dict(fields, error=type(e).__name__, other_attrs=len(extra)), rep, nontriv)
+                        continue
+                    d2 = tree_diff(x, l2)
+                    led.check(not d2, f"post:{fn}:round_trip_with_other_attrs", fn, f"dump/load with other_attrs={extra}: {d2[:4]} differ (coeff {l2.coeff!r}, was {x.coeff!r})",
+                              k2, dict(fields, other_attrs=len(extra)), dict(rep, other_attrs=extra), nontriv)
+                    ok_extra = all(hasattr(l2, a) and np.array_equal(np.asarray(getattr(l2, a)), np.asarray(getattr(x, a))) for a in extra)
+                    led.check(ok_extra, f"post:{fn}:other_attrs_restored", fn, f"extra attributes {extra} not restored", k2 + ("attrs",), dict(fields, other_attrs=len(extra)),
+                              dict(rep, other_attrs=extra), bool(extra))
     finally:
         shutil.rmtree(tmp, ignore_errors=True)
 
